@@ -54,6 +54,13 @@ class DiskReplayer:
                     self.raw.set(hk, old)
             elif kind == "corrupt":
                 how = op[2]
+                # the specification only corrupts what a set() has written: if the store does not hold it, the store
+                # itself has already left the specified behaviour
+                needs = {"flip": k, "truncate": k, "sigalter": hk}.get(how)
+                have = self.raw.get(needs, default=_MISSING) if needs is not None else None
+                if needs is not None and (have is _MISSING or not isinstance(have, bytes if needs == k else str)):
+                    out.append((i, "state-missing", f"{'payload' if needs == k else 'signature'} entry is {'absent' if have is _MISSING else 'of type ' + type(have).__name__} although a completed set() must have (re)written it"))
+                    break
                 if how == "flip":
                     b = bytearray(self.raw.get(k))
                     b[(len(b) // 2 + i) % len(b)] ^= (1 << (i % 7))     # a different bit for every operation of the history
